@@ -258,9 +258,11 @@ func (t *Template) expectString(context string) string {
 func (t *Template) parseTemplate(cacheAfterParsing bool) (next Node) {
 	t.Root = t.newList(t.peek().pos)
 	// {{ extends|import stringLiteral }}
+	var skipped []item
 	for t.peek().typ != itemEOF {
 		delim := t.next()
 		if delim.typ == itemText && strings.TrimSpace(delim.val) == "" {
+			skipped = append(skipped, delim)
 			continue //skips empty text nodes
 		}
 		if delim.typ == itemLeftDelim {
@@ -293,6 +295,13 @@ func (t *Template) parseTemplate(cacheAfterParsing bool) (next Node) {
 		} else {
 			t.backup()
 			break
+		}
+	}
+
+	// whitespace-only text is dropped only next to extends/import clauses
+	if t.extends == nil && len(t.imports) == 0 {
+		for _, tok := range skipped {
+			t.Root.append(t.newText(tok.pos, tok.val))
 		}
 	}
 
